@@ -1675,7 +1675,7 @@ def u7(rep, F, flt=None):
                 # each pair differs in a small, fully resolved part (an edit); a re-arranged expression is undecided
                 import difflib
                 aa, oo = list(a), list(o)
-                definite = len(aa) == len(oo) and len(aa) <= 8
+                definite = len(aa) == len(oo) and len(aa) <= 3
                 while definite and aa:
                     x = aa.pop()
                     y = max(oo, key=lambda z: difflib.SequenceMatcher(a=x, b=z, autojunk=False).quick_ratio())
